@@ -24,6 +24,7 @@ def _workaround_for_static_import_finders():
     import pycparser.lextab
 
 CDEF_SOURCE_STRING = "<cdef source string>"
+_r_other_whitespace = re.compile(r"[\r\f\v]")
 _r_comment = re.compile(r"/\*.*?\*/|//([^\n\\]|\\.)*?$",
                         re.DOTALL | re.MULTILINE)
 _r_define  = re.compile(r"^\s*#\s*define\s+([A-Za-z_][A-Za-z_0-9]*)"
@@ -187,6 +188,9 @@ def _put_back_line_directives(csource, line_directives):
     return _r_line_directive.sub(replace, csource)
 
 def _preprocess(csource):
+    # pycparser's lexer only accepts ' ', '\t' and '\n' as white space:
+    # turn the other white space characters of C (CR, FF, VT) into spaces
+    csource = _r_other_whitespace.sub(' ', csource)
     # First, remove the lines of the form '#line N "filename"' because
     # the "filename" part could confuse the rest
     csource, line_directives = _remove_line_directives(csource)
